@@ -131,7 +131,8 @@ package leanhelix
 //@ func (*WorkerLoop).onCommit
 //@   inv [O17.the-installed-term-is-the-term-of-the-current-height] (lh.filter.consensusMessagesHandler != nil ==> TermHeightOf(dyn(lh.filter.consensusMessagesHandler, *leanhelixterm.LeanHelixTerm)) == lh.state.height)
 //@   inv [O8.the-installed-term-is-wired-to-this-filter] (lh.filter.consensusMessagesHandler != nil ==> TermWired(dyn(lh.filter.consensusMessagesHandler, *leanhelixterm.LeanHelixTerm), lh.filter))
-//@   props C13 C03
+//@   props C13 C03 C15 C16
+//@   assert before call onCommitCallback [O16.the-host-commit-callback-runs-under-the-context-it-was-handed] $ctx == ctx
 //@   requires lh.state != nil && lh.filter != nil && lh.filter.state == lh.state && lh.filter.futureCache != nil && lh.state.Contexts != nil
 //@   requires [A-NONNIL.the-configured-spi-objects-are-present] lh.config != nil && lh.config.KeyManager != nil && lh.config.BlockUtils != nil && lh.config.Membership != nil && lh.config.Communication != nil && lh.electionTrigger != nil
 //@   requires [A-KM-SIGN] SignsAs(lh.config.KeyManager, lh.config.Membership.MyMemberId())
